@@ -139,3 +139,6 @@ Definition v_of_out (o : out) : val :=
   end.
 Definition v_of_result {A} (r : result (E:=exn) A) : val :=
   match r with Ok _ => VL [VS "ok"] | Raise e => VL [VS "raise"; VZ (exn_tag e)] end.
+
+(* name[:1] == b":" *)
+Definition starts_colon (b : bytes) : bool := match b with c :: _ => (c =? 58)%N | [] => false end.
